@@ -59,12 +59,18 @@ def main():
             checks = args[k + 1].split(',')
     head = sh('git rev-parse --short HEAD', cwd=REPO)[1].strip()
     rc, st = sh('git status --porcelain', cwd=REPO)
-    if st.strip():
+    if st.strip() and '--confirm-only' not in args:
         print('refusing: /repo is not clean:\n' + st)
         return 2
     patch = os.path.abspath(os.path.join(cand, 'patch.diff'))
     demo = os.path.abspath(os.path.join(cand, 'demo.py'))
     meta = {'seed': sid, 'property': prop, 'repo_head': head, 'checks_run': {}, 'confirmed': {}}
+    prev = os.path.join(cand, 'confirm.json')
+    if no_tests and os.path.exists(prev):
+        pc = json.load(open(prev))
+        if pc.get('repo_head') == head:
+            meta['confirmed'] = pc['confirmed']
+            return phase2(meta, pc['diff'], checks, sid, demo, cand)
     wt = f'/tmp/seedwt_{sid}'
     sh(f'git worktree remove --force {wt}', cwd=REPO)
     shutil.rmtree(wt, ignore_errors=True)
@@ -110,6 +116,14 @@ def main():
     finally:
         sh(f'git worktree remove --force {wt}', cwd=REPO)
         shutil.rmtree(wt, ignore_errors=True)
+    json.dump({'confirmed': meta['confirmed'], 'repo_head': head, 'diff': newdiff}, open(os.path.join(cand, 'confirm.json'), 'w'), indent=1)
+    if '--confirm-only' in args:
+        print(sid, json.dumps({k: v for k, v in meta['confirmed'].items() if k != 'demo_output_changed'}))
+        return 0
+    return phase2(meta, newdiff, checks, sid, demo, cand)
+
+
+def phase2(meta, newdiff, checks, sid, demo, cand):
     # ---- the checks against the changed /repo
     tmp = f'/tmp/seedpatch_{sid}.diff'
     open(tmp, 'w').write(newdiff)
